@@ -724,7 +724,7 @@ class Engine:
         if cur is None or not cur.loops:
             return None
         key = self.loop_key(it, node, fr)
-        if fr.fn is not self.current_fn and key not in cur.loops:
+        if fr.fn is not self.current_fn and key not in cur.loops and not getattr(self, "_symbolic_loop", False):
             return None
         sp = cur.loops.get(key)
         if sp is None:
@@ -733,15 +733,17 @@ class Engine:
                 if len(key) >= 100 and k.startswith(key):
                     key, sp = k, cur.loops[k]
                     break
-        if sp is None and fr.fn is self.current_fn:
+        if sp is None and fr.fn is not None and (fr.fn is self.current_fn or getattr(self, "_symbolic_loop", False)):
+            # (also for loops of helper functions executed inline: code may have been moved into a new helper)
             # the loop header was edited: a declared loop with the same target (`for x in ...`) / the only declared
             # `while` keeps its invariant, so that the changed loop is still checked against it
             head = key.split(" in ")[0] + " in " if not isinstance(node, ast.While) else "while "
-            ck = (id(self.current_fn), "exact_loop_keys")
+            ck = (id(self.current_fn), id(fr.fn), "exact_loop_keys")
             if getattr(self, "_exact_keys_cache", (None, None))[0] != ck:
                 # declared loops that some loop of the function matches literally are not up for grabs
                 exact = set()
-                for n in ast.walk(self.current_fn):
+                nodes = list(ast.walk(self.current_fn)) + (list(ast.walk(fr.fn)) if fr.fn is not self.current_fn else [])
+                for n in nodes:
                     if isinstance(n, (ast.For, ast.AsyncFor, ast.While)):
                         try:
                             exact.add(self.loop_key(it, n, fr))
